@@ -236,7 +236,7 @@ func signedAccumulatorRule(P *Program, R *Report) {
 			if !ok {
 				return false
 			}
-			return (desc(callArgs(c)[0]) == "arg#0" || desc(callArgs(c)[0]) == "<crypto/ecdsa.PublicKey>") && dependsOn(P, callArgs(c)[1], func(d string) bool { return strings.HasPrefix(d, "call:crypto/sha256.Sum256(arg#1)") })
+			return (desc(callArgs(c)[0]) == "arg#0" || desc(callArgs(c)[0]) == "<crypto/ecdsa.PublicKey>") && dependsOnDeep(P, callArgs(c)[1], 1, func(d string) bool { return strings.HasPrefix(d, "call:crypto/sha256.Sum256(arg#1)") })
 		}})
 		mp(P, R, rule, kSignedVer+":no-trailing", "nil error => the DER signature had no trailing bytes", v, AcceptNilErr(0), &MustPass{Match: func(a Atom) bool {
 			g, ok := parseGuard(a, nil)
